@@ -185,6 +185,13 @@ func (fx *FnExec) modHeapNames(e ast.Expr, names map[string]types.Type) []string
 			return nil
 		}
 		switch id.Name {
+		case "stream":
+			fx.witems()
+			fx.wlen()
+			return []string{"G_witems", "G_wlen"}
+		case "reader":
+			fx.rpos()
+			return []string{"G_rpos"}
 		case "elems":
 			if st, ok := t.Underlying().(*types.Slice); ok {
 				n, s := fx.elemHeap(st.Elem())
@@ -240,6 +247,16 @@ func (fx *FnExec) applyModifies(ct *Contract, env *evalEnv) error {
 				return err
 			}
 			switch id.Name {
+			case "stream":
+				ref := streamRef(v)
+				fx.setHeap("G_witems", "(Array Int "+itemsSort+")", "(store "+fx.witems()+" "+ref+" "+fx.havoc("mod_items", itemsSort)+")")
+				nl := fx.havoc("mod_wlen", "Int")
+				fx.assume("(>= " + nl + " 0)")
+				fx.setHeap("G_wlen", "(Array Int Int)", "(store "+fx.wlen()+" "+ref+" "+nl+")")
+			case "reader":
+				ref := streamRef(v)
+				np := fx.havoc("mod_rpos", "Int")
+				fx.setHeap("G_rpos", "(Array Int Int)", "(store "+fx.rpos()+" "+ref+" "+np+")")
 			case "elems":
 				st, ok := v.T.Underlying().(*types.Slice)
 				if !ok {
@@ -310,6 +327,9 @@ func (fx *FnExec) execCallArgs(in ssa.Instruction, c *ssa.CallCommon, res ssa.Va
 	}
 	if b, ok := c.Value.(*ssa.Builtin); ok {
 		fx.execBuiltin(in, b, c, args, setRes)
+		return
+	}
+	if fx.streamCall(in, c, args, setRes) {
 		return
 	}
 	var rtype types.Type
@@ -770,6 +790,10 @@ func (fx *FnExec) modTargets(m *CExpr, env *evalEnv) ([]modTarget, error) {
 			return nil, err
 		}
 		switch id.Name {
+		case "stream":
+			return []modTarget{{heap: "G_witems", ref: streamRef(v)}, {heap: "G_wlen", ref: streamRef(v)}}, nil
+		case "reader":
+			return []modTarget{{heap: "G_rpos", ref: streamRef(v)}}, nil
 		case "elems":
 			st, ok := v.T.Underlying().(*types.Slice)
 			if !ok {
@@ -884,4 +908,12 @@ func (fx *FnExec) frameCheckCall(in ssa.Instruction, c *ssa.CallCommon, ct *Cont
 		o := fx.oblige("frame", "false", in, "callee without modifies clause may write "+h)
 		o.Props = fx.C.Props
 	}
+}
+
+// streamRef: the object identity of a writer/reader given as pointer or as interface value.
+func streamRef(v cval) string {
+	if v.Sort == "Iface" {
+		return "(i.pay " + v.S + ")"
+	}
+	return v.S
 }
